@@ -80,3 +80,33 @@ Definition MemU_set_flat (arch : Z) (have_virt secure : bool) (s : machine) (add
       Ok tt (set_mem s (fst (fold_left (fun hk x => (hub_write (fst hk) x 1 ((v / 256 ^ snd hk) mod 256), snd hk + 1))
                                        (byte_addrs a 0 (Z.to_nat size)) (mem s, 0))))
   end.
+
+(* ---------- PMSA: MPU region lookup and access permissions (B5.3, B5.4) ---------- *)
+(* a data region: DRBAR (base), DRSR (enable <0>, size <5:1>, subregion disable <15:8>), DRACR (AP <10:8>) *)
+Record region := { rg_base : Z; rg_rsr : Z; rg_racr : Z }.
+Definition region_hit (va : Z) (r : region) : bool :=
+  let lsbit := bits (rg_rsr r) 5 1 + 1 in
+  (bit (rg_rsr r) 0 =? 1)
+  && ((lsbit =? 32) || (bits va 31 lsbit =? bits (rg_base r) 31 lsbit))
+  && (if lsbit >=? 8 then bit (rg_rsr r) (8 + bits va (lsbit - 1) (lsbit - 3)) =? 0 else true).
+(* the matching region: the highest-numbered one that hits *)
+Definition mpu_lookup (regions : list region) (va : Z) : option region :=
+  fold_left (fun acc r => if region_hit va r then Some r else acc) regions None.
+(* CheckPermission for PMSA (AP = 100 and 111 are UNPREDICTABLE: the emulator permits) *)
+Definition ap_denies (ap : Z) (ispriv iswrite : bool) : bool :=
+  if ap =? 0 then true else if ap =? 1 then negb ispriv else if ap =? 2 then negb ispriv && iswrite
+  else if ap =? 5 then negb ispriv || iswrite else if ap =? 6 then iswrite else false.
+Definition regions_of (s : machine) (n : nat) : list region :=
+  map (fun i => {| rg_base := getl (nth 1 (sysl s) []) i; rg_rsr := getl (nth 0 (sysl s) []) i; rg_racr := getl (nth 2 (sysl s) []) i |})
+      (zrange 0 n).
+Definition FS_of_dtype (background : bool) : Z := if background then FS_background else FS_permission.
+Inductive pmsa_result := P_ok | P_abort (background : bool).
+Definition PMSA_check (s : machine) (nregions : nat) (va : Z) (ispriv iswrite : bool) : pmsa_result :=
+  if bit (sctlr_of s) 0 =? 0 then P_ok
+  else match mpu_lookup (regions_of s nregions) va with
+       | Some r =>
+           let ap := bits (rg_racr r) 10 8 in
+           let ap := if bit (sctlr_of s) 29 =? 1 then insert ap 0 0 1 else ap in
+           if ap_denies ap ispriv iswrite then P_abort false else P_ok
+       | None => if (bit (sctlr_of s) 17 =? 0) || negb ispriv then P_abort true else P_ok
+       end.
